@@ -171,12 +171,12 @@ theorem expectNumberTol_run (st : St) (dflt : Int) {ds : Bytes} {k : Nat} {n : I
 
 theorem pf_hour (ty : Ty) (now : Clock) (st0 : St) (ds rest : Bytes) (h : Int)
     (hty : ty.info.HAS_TIME = true) (hlen : ty.info.HOUR_MAX_LENGTH = 2)
-    (hset : st0.isHour24Set = none) (hampm : st0.dt.ampm = none) (hrun : Run ds 2 h) (hr : NoDigitHead rest)
+    (hset : st0.isHour24Set = none) (hampm : st0.isAmPmSet = false) (hrun : Run ds 2 h) (hr : NoDigitHead rest)
     (hs : st0.s = ds ++ rest) :
     parseField ty now st0 .Hour24 =
       .ok { st0 with s := rest, dt := { st0.dt with hour := h }, isHour24Set := some true } := by
   obtain ⟨e1, e2⟩ := expectNumberTol_run { st0 with s := ds ++ rest } 0 hrun rest hr rfl
-  simp only [hset] at e1 e2
+  simp only [hset, hampm] at e1 e2
   simp only [parseField, hs, eatWs_run hrun, hty, hlen, hset, hampm, bind, Except.bind, pure, Except.pure]
   cases ty.info.IS_INTERVAL_DT <;> simp [e1, e2, hampm]
 
